@@ -694,6 +694,13 @@ func (handler *Handler) extractData(pos int, rowData []byte, field *ColumnDescri
 			return nil, 0, err
 		}
 		return value, n, nil
+	case base_mysql.TypeJSON:
+		// MYSQL_TYPE_JSON (0xf5) is sent as a length-encoded string
+		value, n, err := base_mysql.LengthEncodedString(rowData[pos:])
+		if err != nil {
+			return nil, 0, err
+		}
+		return value, n, nil
 	default:
 		return nil, 0, errors.New("found unknown FieldType in MySQL response packet")
 	}
